@@ -206,3 +206,29 @@ mutant('C06', 'getitem mutates operand dtype', AT, "        for key in self.view
 mutant('C06', 'atoms_df scales in place', SYS, "            if key in scale:\n                value = self.box.position_cartesian_to_relative(value)", "            if key in scale:\n                value[:] = self.box.position_cartesian_to_relative(value)", 'PRESERVE')
 benign('C06', 'prop copies via np.array', AT, '                    return deepcopy(self.view[key][index])', '                    return np.array(self.view[key][index])')
 benign('C06', 'extend zeros via zeros_like rows', AT, "newatoms.view[prop][self.natoms:] = np.zeros((natoms, ) + self.view[prop][0].shape, dtype=self.view[prop][0].dtype)", "newatoms.view[prop][self.natoms:] = 0")
+
+# ------------------------------------------------------------------ C04
+MIL = 'atomman/tools/miller.py'
+C2P = 'atomman/dump/conventional_to_primitive/dump.py'
+P2C = 'atomman/dump/primitive_to_conventional/dump.py'
+mutant('C04', 'supersize offsets transposed', SYS, 'test[:] = np.arange(mults[0])\n        x = test.T.flatten()', 'test[:] = np.arange(mults[0])\n        x = test.flatten()', 'SUPERSIZE')
+mutant('C04', 'supersize origin shift uses upper bound', SYS, 'origin += vects[i] * sizes[i][0]', 'origin += vects[i] * sizes[i][1]', 'SUPERSIZE')
+mutant('C04', 'supersize positions not rescaled', SYS, '            spos[:,i] /= mults[i]\n', '', 'SUPERSIZE')
+mutant('C04', 'supersize offset scale wrong axis', SYS, 'np.array([1 / mults[0], 1 / mults[1], 1 / mults[2]])', 'np.array([1 / mults[0], 1 / mults[2], 1 / mults[1]])', 'SUPERSIZE')
+mutant('C04', 'supersize zero multiplier accepted', SYS, "            if mults[i] == 0:\n                raise ValueError('Cannot multiply system dimension by zero')\n", "", 'SUPERSIZE')
+mutant('C04', 't2 row copied from t1', MIL, "    lattice_vectors['t2'] = np.array([[ -1.0,  1.0,  0.0],\n                                      [  0.0, -1.0,  1.0],", "    lattice_vectors['t2'] = np.array([[ -1.0,  1.0,  0.0],\n                                      [  0.0,  1.0, -1.0],", 'CENTERING')
+mutant('C04', 'i-centering sign', MIL, "    lattice_vectors['i'] = np.array([[  0.5,  0.5,  0.5],\n                                     [ -0.5,  0.5, -0.5],", "    lattice_vectors['i'] = np.array([[  0.5,  0.5,  0.5],\n                                     [ -0.5,  0.5,  0.5],", 'CENTERING')
+mutant('C04', 'basis table for b wrong', C2P, "        relpos = np.array([[0.0, 0.0, 0.0],\n                           [0.5, 0.0, 0.5]])", "        relpos = np.array([[0.0, 0.0, 0.0],\n                           [0.5, 0.5, 0.0]])", 'CENTERING')
+mutant('C04', 'trigonal supercell only doubled', C2P, "        multip = 3\n", "        multip = 2\n", 'CENTERING')
+mutant('C04', 'primitive cell not divided', C2P, 'box = Box(vects = p_scell.box.vects / multip)', 'box = Box(vects = p_scell.box.vects / 2)', 'CONVERSION')
+mutant('C04', 'p2c uses the wrong table', P2C, 'miller.vector_conventional_to_primitive(np.identity(3),', 'miller.vector_primitive_to_conventional(np.identity(3),', 'CONVERSION')
+mutant('C04', 'rotate bounding box without margin', SYS, 'a_mults = (corners[:,0].min()-1, corners[:,0].max()+1)', 'a_mults = (corners[:,0].min(), corners[:,0].max())', 'ROTATE')
+mutant('C04', 'rotate misses a corner', SYS, 'corners[7] = uvws[0] + uvws[1] + uvws[2]', 'corners[7] = uvws[0] + uvws[1]', 'ROTATE')
+mutant('C04', 'rotate count gate removed', SYS, "            if not search_success:\n                raise ValueError(f'Filtering failed: {newnatoms} atoms expected, {len(aindex[0])} found')\n", "", 'ROTATE')
+mutant('C04', 'rotate keeps upper faces', SYS, '(spos[:, 0] >= 0.0) & (spos[:, 0] < 1.0)', '(spos[:, 0] >= 0.0) & (spos[:, 0] <= 1.0)', 'ROTATE')
+mutant('C04', 'rotate passes origin that normalize drops', SYS, 'system2.box_set(vects=newvects, scale=False)', 'system2.box_set(vects=newvects, origin=self.box.origin, scale=False)', 'ORIGIN')
+mutant('C04', 'rotate re-vectors holding scaled positions', SYS, 'system2.box_set(vects=newvects, scale=False)', 'system2.box_set(vects=newvects, scale=True)', 'ROTATE')
+mutant('C04', 'supersize works on the stored vectors', SYS, "        vects = self.box.vects\n        origin = self.box.origin\n        spos = self.atoms_prop('pos', scale=True)", "        vects = self.box._Box__vects\n        origin = self.box.origin\n        spos = self.atoms_prop('pos', scale=True)", 'PRESERVE')
+mutant('C04', 'normalize flip mirrors atoms', NRM, "origin=system.box.origin + system.box.cvect)", "origin=system.box.origin + system.box.cvect, scale=True)", 'NORMALIZE')
+benign('C04', 'p-table via identity', MIL, "    lattice_vectors['p'] = np.array([[  1.0,  0.0,  0.0],\n                                     [  0.0,  1.0,  0.0],\n                                     [  0.0,  0.0,  1.0]])\n    \n    lattice_vectors['a'] = np.array([[  1.0,  0.0,  0.0],\n                                     [  0.0,  0.5,  0.5],", "    lattice_vectors['p'] = np.identity(3)\n    \n    lattice_vectors['a'] = np.array([[  1.0,  0.0,  0.0],\n                                     [  0.0,  0.5,  0.5],")
+benign('C04', 'supersize reciprocal multipliers', SYS, 'np.array([1 / mults[0], 1 / mults[1], 1 / mults[2]])', '(1 / mults)')
